@@ -5,10 +5,22 @@
 #  (2) transform_mul_div (mir-gen.c): mul/udiv/div by a power of two 2^sh -> shift sequences: the
 #      opcode map, the guards on sh per opcode and the instruction sequences built with MIR_new_insn.
 # Unknown shape => an `Unknown` entry that the Coq recogniser rejects (theorem fails).
-import sys, os, re
+import sys, os, re, json
 sys.path.insert(0, os.path.dirname(os.path.abspath(__file__)))
 import vlib
-from tr_c02_clib import find_function
+from tr_c02_clib import find_function, Unsupported, parse_expr_text
+import tr_c02_smt as SMT
+import tr_c02_peval as PE
+
+NOTES = []      # constructs tied by symbolic execution + SMT instead of by their literal text
+CANON = os.path.join(vlib.VERIF, 'corpus', 'c02_canon_peephole.json')
+
+
+def canon():
+    try:
+        return json.load(open(CANON))
+    except (OSError, ValueError):
+        return {}
 
 
 def norm(s):
@@ -27,7 +39,7 @@ def shortcuts(repo):
                      r'&&\s*insn->ops\[2\]\.u\.i\s*==\s*(\d+)\)')
     ms = list(pat.finditer(body))
     if not ms:
-        return None, 'shortcut condition not found'
+        return shortcuts_symbolic(repo)
     for m in ms:
         for op in re.findall(r'MIR_(\w+)', m.group(1)):
             out.append((op, int(m.group(2))))
@@ -36,6 +48,184 @@ def shortcuts(repo):
     if not re.search(r'MIR_new_insn\s*\(ctx,\s*MIR_MOV,\s*insn->ops\[0\],\s*insn->ops\[1\]\)', tail):
         return None, 'shortcut replacement is not `mov ops[0], ops[1]`'
     return out, None
+
+
+def enclosing_condition(body, pos):
+    """text of COND of the innermost `if (COND) {` / `else if (COND) {` whose block contains position pos"""
+    depth = 0
+    i = pos
+    while i > 0:
+        i -= 1
+        ch = body[i]
+        if ch == '}':
+            depth += 1
+        elif ch == '{':
+            if depth:
+                depth -= 1
+                continue
+            # the block containing pos opens here: what precedes it?
+            j = i - 1
+            while j >= 0 and body[j] in ' \t\r\n':
+                j -= 1
+            if j < 0 or body[j] != ')':
+                continue            # a block of another statement: look further out
+            k, d = j, 0
+            while k >= 0:
+                d += {')': 1, '(': -1}.get(body[k], 0)
+                if d == 0:
+                    break
+                k -= 1
+            head = body[:k].rstrip()
+            if head.endswith('if'):
+                return body[k + 1:j]
+    return None
+
+
+def shortcuts_symbolic(repo):
+    """the shortcut condition is not in the literal form: execute it symbolically (helper functions, switch) for every
+    opcode with the constant of operand 2 as the unknown, and let the SMT solver enumerate the constants"""
+    import tr_opcodes, tr_c02_interp
+    src = tr_c02_interp.preprocess(repo)
+    r = find_function(src, 'simplify_func')
+    if r is None:
+        return None, 'simplify_func not found'
+    body = r[1]
+    m = re.search(r'MIR_new_insn\s*\(ctx,\s*MIR_MOV,\s*insn->ops\[0\],\s*insn->ops\[1\]\)', body)
+    if not m:
+        return None, 'shortcut replacement `mov ops[0], ops[1]` not found'
+    inner = enclosing_condition(body, m.start())       # if (!MIR_op_eq_p (...))
+    cond = None
+    if inner is not None and 'MIR_op_eq_p' in inner:
+        pos = body.rfind(inner, 0, m.start())
+        cond = enclosing_condition(body, body.rfind('if', 0, pos))
+    if cond is None:
+        return None, 'condition guarding the shortcut not found'
+    enums = PE.parse_enums(src)
+    ops = tr_opcodes.opcodes(repo)
+    modes = sorted(n for n in enums if re.match(r'^MIR_OP_[A-Z_]+$', n) and n != 'MIR_OP_BOUND')
+    if 'MIR_OP_INT' not in modes:
+        return None, 'MIR_OP_INT not found'
+    try:
+        ce = parse_expr_text(cond, {'MIR_insn_t', 'MIR_context_t', 'MIR_item_t', 'MIR_insn_code_t', 'MIR_op_t', 'size_t'})
+    except Unsupported as e:
+        return None, 'shortcut condition: %s' % e
+    out = []
+    cvar = ('EVar', 1, 'CI64')
+    cur = {}
+    o2 = ('index', ('arrow', ('id', 'insn'), 'ops'), ('num', '2'))
+
+    def ext(e, fr):
+        if e == ('id', 'code') or e == ('arrow', ('id', 'insn'), 'code'):
+            return PE.V('CI32', c=enums['MIR_' + cur['op']])
+        if e == ('id', 'insn'):
+            return PE.V('OPAQUE', e='insn')
+        if e == ('id', 'ctx'):
+            return PE.V('OPAQUE', e='ctx')
+        if e == ('member', o2, 'mode'):
+            return PE.V('CI32', c=enums[cur['mode']])
+        if e == ('member', ('member', o2, 'u'), 'i'):
+            return PE.V('CI64', e=cvar)
+        if e == ('member', ('member', o2, 'u'), 'u'):
+            return PE.V('CU64', e=('ECast', 'CU64', cvar))
+        if e == ('arrow', ('id', 'insn'), 'nops'):
+            return PE.V('CU64', c=3)
+        return None
+    pe = PE.PEval(src, enums, {'MIR_insn_t', 'MIR_context_t', 'MIR_item_t', 'MIR_insn_code_t', 'MIR_op_t', 'size_t', 'int64_t'}, ext)
+    for op in ops:
+        if 'MIR_' + op not in enums:
+            return None, 'enumerator MIR_%s not found' % op
+        for mode in modes:
+            cur['op'], cur['mode'] = op, mode
+            try:
+                v = pe.eval(ce, PE.Frame(), True)
+            except Unsupported as e:
+                return None, 'shortcut condition for %s: %s' % (op, e)
+            t = PE.truthy(v)
+            if t is False:
+                continue
+            if mode != 'MIR_OP_INT':
+                return None, 'the shortcut also applies to operand mode %s' % mode
+            if t is True:
+                return None, 'the shortcut applies to %s with any constant' % op
+            found = []
+            try:
+                for _ in range(5):
+                    enc = SMT.Enc()
+                    ty, term, d = enc.enc(t)
+                    excl = ' '.join('(not (= p1 %s))' % SMT.bvconst(c, 64) for c in found)
+                    res, model = SMT.query(enc, '(and %s %s %s)' % (d, enc.truth(ty, term), excl or 'true'))
+                    if res == 'unsat':
+                        break
+                    if res != 'sat' or len(found) == 4:
+                        return None, 'constants of the shortcut for %s could not be enumerated' % op
+                    found.append(model.get(1, 0))
+            except SMT.NoSmt as e:
+                return None, 'shortcut condition for %s: %s' % (op, e)
+            for c in found:
+                out.append((op, c - (1 << 64) if c >= 1 << 63 else c))
+    if not out:
+        return None, 'no shortcut found'
+    NOTES.append('simplify_func shortcut condition (executed symbolically per opcode, constants enumerated by SMT)')
+    return out, None
+
+
+def classify_const(text, body):
+    """an immediate built by transform_mul_div that is not in one of the literal forms: a local assigned once is
+    replaced by its definition; then, with sh the unknown and op_ref->u.i = 2^sh, the SMT solver decides for all
+    0 <= sh <= 62 whether it is sh or 2^sh - 1"""
+    text = text.strip()
+    if re.match(r'^[A-Za-z_]\w*$', text):
+        defs = re.findall(r'(?<![\w.>])%s\s*=(?!=)\s*([^;]+);' % re.escape(text), body)
+        if len(defs) != 1:
+            return None
+        text = defs[0]
+    sh = ('EVar', 1, 'CI32')
+    pow2 = ('EBin', 'Oshl', ('EConst', 1, 'CI64'), sh)
+
+    def ext(e, fr):
+        if e == ('id', 'sh'):
+            return PE.V('CI32', e=sh)
+        if e == ('member', ('arrow', ('id', 'op_ref'), 'u'), 'i'):
+            return PE.V('CI64', e=pow2)
+        return None
+    try:
+        ce = parse_expr_text(text, {'int64_t', 'uint64_t'})
+        pe = PE.PEval('', {}, {'int64_t', 'uint64_t'}, ext)
+        v = PE.conv('CI64', pe.eval(ce, PE.Frame(), True))
+    except Unsupported:
+        return None
+    if v.c is not None:
+        return '(PConst (CNum %d))' % v.c if v.c >= 0 else None
+    pre = ('ECond', ('EBin', 'Oge', sh, ('EConst', 0, 'CI32')), ('EBin', 'Ole', sh, ('EConst', 62, 'CI32')), PE.ZERO)
+    for name, target in (('CSh', ('ECast', 'CI64', sh)), ('CPow2m1', ('EBin', 'Osub', pow2, ('EConst', 1, 'CI64')))):
+        ok, _ = PE.holds_for_all(pe, ('ECond', pre, ('EBin', 'Oeq', v.e, target), PE.ONE))
+        if ok:
+            NOTES.append('transform_mul_div immediate `%s` = %s for all 0 <= sh <= 62 (SMT)' % (norm(text), {'CSh': 'sh', 'CPow2m1': '2^sh - 1'}[name]))
+            return '(PConst %s)' % name
+    return None
+
+
+def log2_problem(src):
+    """gen_int_log2 (i) >= 0 only for i = 2^k, k <= 62, and then it is k: known text, or symbolic execution + SMT"""
+    g = find_function(src, 'gen_int_log2')
+    if g is None:
+        return 'gen_int_log2 not found'
+    text = norm(re.sub(r'/\*.*?\*/', ' ', g[1], flags=re.S))
+    if text == canon().get('gen_int_log2'):
+        return None
+    try:
+        pe = PE.PEval(re.sub(r'/\*.*?\*/', ' ', src, flags=re.S), {}, {'int64_t', 'uint64_t'})
+        i = ('EVar', 1, 'CI64')
+        r = pe.call('gen_int_log2', [PE.V('CI64', e=i)], True).expr()
+        claim = ('ECond', ('EBin', 'Oge', r, ('EConst', 0, 'CI64')),
+                 ('ECond', ('EBin', 'Ole', r, ('EConst', 62, 'CI64')), ('EBin', 'Oeq', i, ('EBin', 'Oshl', ('EConst', 1, 'CI64'), r)), PE.ZERO), PE.ONE)
+        ok, why = PE.holds_for_all(pe, claim)
+    except Unsupported as e:
+        return 'gen_int_log2: %s' % e
+    if not ok:
+        return 'gen_int_log2 may return k >= 0 for a constant that is not 2^k (%s)' % (why,)
+    NOTES.append('gen_int_log2 (executed symbolically; result >= 0 only for 2^k, k <= 62, and then k: SMT)')
+    return None
 
 
 def operand(tok, local):
@@ -56,10 +246,12 @@ def operand(tok, local):
             return '(PConst CSh)'
         if a == 'op_ref->u.i - 1':
             return '(PConst CPow2m1)'
+        if local is not None:
+            return classify_const(a, local)
     return None
 
 
-def insn_list(text):
+def insn_list(text, body=None):
     """MIR_new_insn (ctx, CODE, dst, srcs...) calls of a block, in order -> [(code, dst, [srcs])] or None"""
     out = []
     for m in re.finditer(r'new_insns\[(\d+)\]\s*=\s*MIR_new_insn\s*\(ctx,\s*(MIR_\w+|new_code)\s*,', text):
@@ -80,7 +272,7 @@ def insn_list(text):
                 d += {'(': 1, ')': -1}.get(ch, 0)
                 cur += ch
         args.append(cur)
-        ops = [operand(a, None) for a in args]
+        ops = [operand(a, body) for a in args]
         if any(o is None for o in ops):
             return None
         out.append((int(m.group(1)), m.group(2), ops[0], ops[1:]))
@@ -98,9 +290,9 @@ def muldiv(repo):
     if not cmap:
         return None, 'opcode map not found'
     # power2_int_op/gen_int_log2: sh = log2 of a positive int64 power of two (so sh <= 62)
-    g = find_function(src, 'gen_int_log2')
-    if g is None or 'if (i <= 0) return -1;' not in norm(g[1]):
-        return None, 'gen_int_log2 does not reject non-positive constants'
+    lp = log2_problem(src)
+    if lp is not None:
+        return None, lp
     bounds = {op: 63 for op in cmap}
     # guards of the form (insn->code == A || insn->code == B) && sh >= N  ... return insn;
     for m in re.finditer(r'\(?((?:insn->code\s*==\s*MIR_\w+\s*\|\|\s*)*insn->code\s*==\s*MIR_\w+)\)?\s*&&\s*sh\s*>=\s*(\d+)', body):
@@ -113,13 +305,13 @@ def muldiv(repo):
     i2 = body.find('if (insn->code == MIR_DIV) {', i1)
     if min(i0, i1, i2) < 0:
         return None, 'unexpected structure of transform_mul_div'
-    mov = insn_list(body[i0:i1])
-    shift = insn_list(body[i1:i2])
+    mov = insn_list(body[i0:i1], body)
+    shift = insn_list(body[i1:i2], body)
     i3 = body.find('} else {', i2)
     i4 = body.find('}', i3 + 8)
-    div64 = insn_list(body[i2:i3])
-    div32 = insn_list(body[i3:i4])
-    rest = insn_list(body[i4:body.find('for (int i = 0; i < 7; i++)', i4)])
+    div64 = insn_list(body[i2:i3], body)
+    div32 = insn_list(body[i3:i4], body)
+    rest = insn_list(body[i4:body.find('for (int i = 0; i < 7; i++)', i4)], body)
     if None in (mov, shift, div64, div32, rest) or not div64 or not div32:
         return None, 'an instruction sequence of transform_mul_div could not be read'
     rows = []
@@ -138,8 +330,18 @@ def coq_seq(seq):
     return '[' + '; '.join('(%s, %s, [%s])' % (c, d, '; '.join(s)) for c, d, s in seq) + ']'
 
 
+def snapshot():
+    src = open(os.path.join(vlib.REPO, 'mir-gen.c')).read()
+    g = find_function(src, 'gen_int_log2')
+    json.dump({'gen_int_log2': norm(re.sub(r'/\*.*?\*/', ' ', g[1], flags=re.S))}, open(CANON, 'w'), indent=0)
+    print('wrote', CANON)
+
+
 def main():
     repo = vlib.REPO
+    if '--snapshot' in sys.argv:
+        return snapshot()
+    del NOTES[:]
     sc, e1 = shortcuts(repo)
     md, e2 = muldiv(repo)
     s = '(* GENERATED on every run by tools/tr_c02_peephole.py from mir.c / mir-gen.c of the checked tree. *)\n'
@@ -162,8 +364,10 @@ def main():
     if old != s:
         open(out + '.tmp%d' % os.getpid(), 'w').write(s)
         os.rename(out + '.tmp%d' % os.getpid(), out)
-    print('Peephole: %s shortcuts, %s mul/div rewrites%s' % (len(sc) if sc else 'UNKNOWN', len(md) if md else 'UNKNOWN',
-                                                              (' [' + (e1 or '') + ' ' + (e2 or '') + ']') if (e1 or e2) else ''))
+    SMT.write_notes('peephole', list(NOTES))
+    print('Peephole: %s shortcuts, %s mul/div rewrites%s%s' % (len(sc) if sc else 'UNKNOWN', len(md) if md else 'UNKNOWN',
+                                                              (' [' + (e1 or '') + ' ' + (e2 or '') + ']') if (e1 or e2) else '',
+                                                              ('; tied by symbolic execution + SMT: ' + '; '.join(NOTES)) if NOTES else ''))
 
 
 if __name__ == '__main__':
